@@ -219,6 +219,17 @@ PROPS["C11"] = {
     "assumptions": ["the HTTP stack delivers the de-framed body bytes up to the cut point and signals the cut as end of stream or error"],
 }
 
+PROPS["C18"] = {
+    "features": None,
+    "needs_ipputil": True,
+    "technique": "Lean 4 proof: exhaustive/exclusive text classification of option values and control-flow theorems of do_print_job over the builder (C10) and readiness (C17) models; the real ipputil binary against a scripted loopback printer",
+    "level_text": "Machine-checked theorems: `classification` (every option value text is exactly one of true / false / decimal 32-bit integer (optional sign, digits, in range) / keyword-unchanged; with `true_is_boolean`, `false_is_boolean`, `integer_text`, `keyword_text` and boundary examples), `no_check_submits` (with -n exactly the Print-Job is sent), `not_ready_submits_nothing` (stopped, blocked, unsuccessful status or unreachable printer: only the query is sent, exit status non-zero), `ready_submits` (query, then one Print-Job whose payload is the document), `exit_zero_iff` (exit status 0 exactly when every exchange produced a response with a successful status and, with the check on, the printer was ready), `print_job_is_a_builder_result` (job name, user name and typed options reach the request as C10 describes). Tie to the code: the real ipputil binary, built from /repo, is run against the harness's loopback printer with files and standard input of 0 B to hundreds of KB (MiBs thorough), option texts of every class incl. 'a=b=c' and options without '=', -n, scripted printer states, reasons, IPP statuses and HTTP errors; the requests the printer received (parsed) and the exit status are diffed against the model; the document must arrive byte-identical.",
+    "level_note": "Partial: clap, file reading, chunked transfer and process exit are observed, not proved.",
+    "design_ref": "DESIGN.md section 9, C18",
+    "trusted_base": CODEC_TB + ["clap argument parsing, std::fs, std::process exit codes, ureq (parameters)", "harness/src/httpd.rs"],
+    "assumptions": ["`Err` returned from main gives exit status 1"],
+}
+
 ALL_IDS = ["C%02d" % i for i in range(1, 21)]
 
 NOT_YET = "not claimed in this revision: the theorem/correspondence pair for this property is not built yet (see DESIGN.md section 13)"
